@@ -70,6 +70,7 @@ Fixpoint emits_colon_space (t : ytree) : bool :=
   match t with
   | YNum _ _ => false
   | YBool _ => false
+  | YNull => false
   | YStr s => str_colon_space s
   | YList l =>
       (fix go (l : list ytree) : bool :=
